@@ -5,6 +5,12 @@
 //! '(' ... ')' = intermediate node }; the expected enumeration is the list of the ids assigned to the 'p'
 //! characters, left to right. For malformed documents the module's own resolver (`is_page`, `reachable`)
 //! decides what a page object is and which ids hang under the root.
+//!
+//! Every value of a page-tree object may be held behind indirect references, and an indirect object may itself hold
+//! nothing but a reference; family (9) therefore enumerates the SHAPE of such a reference chain (every "rho": a tail
+//! of t reference-only objects running into a loop of l of them, or ending in the original value, an absent object
+//! or the root) at every place of the tree where a value stands (every dictionary entry of the trailer / catalog /
+//! nodes that the tree is made of, every element of every Kids array).
 #![allow(dead_code)]
 use crate::c03::{obj_from_json, obj_json};
 use crate::common::*;
@@ -66,7 +72,8 @@ fn dget<'a>(dict: &'a Dictionary, key: &[u8]) -> Option<&'a Object> {
 /// the id denotes (possibly through a chain of indirect references) a dictionary with /Type /Page
 fn is_page(doc: &Document, id: ObjectId) -> bool {
     match doc.objects.get(&id).and_then(|o| resolve(doc, o)) {
-        Some(Object::Dictionary(dict)) => matches!(dget(dict, b"Type"), Some(Object::Name(n)) if n.as_slice() == b"Page"),
+        // (the value of Type may itself be held behind references, like any value of a dictionary)
+        Some(Object::Dictionary(dict)) => matches!(dget(dict, b"Type").and_then(|t| resolve(doc, t)), Some(Object::Name(n)) if n.as_slice() == b"Page"),
         _ => false,
     }
 }
@@ -555,20 +562,129 @@ fn big_counts_case(s: &str, big: usize, target: usize) -> Case {
 
 
 // ---------------------------------------------------------------------------------------------------------
+// malformed 4 / well-formed: reference chains of every shape at every place of a tree
+// A place is a dictionary entry of the trailer (Root), the catalog (Type, Pages), the root (Type, Kids, Count), an
+// intermediate node (Type, Parent, Kids, Count), a page (Type, Parent), or one element of a Kids array. The value v
+// standing there is moved into a new indirect object O, and the place gets a reference to A0 where A0 .. A(L-1) are
+// L new indirect objects holding nothing but a reference: Ai -> A(i+1), and the last one -> `end`:
+//   Back(i) = Ai (a tail of i objects running into a loop of L - i objects; i = 0 is the plain cycle through the start),
+//   Orig = O (a finite chain that arrives at the original value), Absent = an object that does not exist, Root = the root.
+// ---------------------------------------------------------------------------------------------------------
+#[derive(Clone, Copy, PartialEq, Debug)]
+pub enum ChainEnd { Back(usize), Orig, Absent, Root }
+#[derive(Clone, Copy, Debug)]
+pub struct Chain { hops: usize, end: ChainEnd }
+#[derive(Clone, Debug)]
+pub enum Place { Entry { obj: Option<ObjectId>, owner: String, key: &'static str }, Kid { parent: ObjectId, owner: String, pos: usize } }
+
+const ALIAS_BASE: u32 = 3_000_000;
+const ORIG_ID: ObjectId = (3_900_000, 0);
+const ABSENT_ID: ObjectId = (3_900_001, 0);
+pub const EXACT_HOPS: usize = 16; // finite chains of up to this many reference-only objects in front of Kids / Count / Parent: exact order demanded
+
+/// all chains with 1..=max_small reference-only objects and every end; for each "long" length the ends Orig, Absent, Root
+/// and the loops entered at the first, second, middle and last object
+fn chains(max_small: usize, long: &[usize]) -> Vec<Chain> {
+    let mut v = vec![];
+    for hops in 1..=max_small {
+        for i in 0..hops { v.push(Chain { hops, end: ChainEnd::Back(i) }); }
+        for end in [ChainEnd::Orig, ChainEnd::Absent, ChainEnd::Root] { v.push(Chain { hops, end }); }
+    }
+    for &hops in long {
+        let mut backs = vec![0, 1, hops / 2, hops - 1];
+        backs.dedup();
+        for i in backs { v.push(Chain { hops, end: ChainEnd::Back(i) }); }
+        for end in [ChainEnd::Orig, ChainEnd::Absent, ChainEnd::Root] { v.push(Chain { hops, end }); }
+    }
+    v
+}
+
+/// the places of the tree `s` built with id layout 0 and direct Kids arrays (catalog 1, root 2, node j = 3 + j)
+fn places(s: &str) -> Vec<Place> {
+    let (nodes, rootkids) = parse_forest(s);
+    let mut v = vec![];
+    let e = |obj: Option<ObjectId>, owner: String, key: &'static str| Place::Entry { obj, owner, key };
+    v.push(e(None, "trailer".into(), "Root"));
+    for key in ["Type", "Pages"] { v.push(e(Some((1, 0)), "catalog 1 0".into(), key)); }
+    for key in ["Type", "Kids", "Count"] { v.push(e(Some((2, 0)), "root 2 0".into(), key)); }
+    let mut inner: Vec<(ObjectId, String, usize)> = vec![((2, 0), "root 2 0".into(), rootkids.len())]; // (id, name, number of kids)
+    for (j, n) in nodes.iter().enumerate() {
+        let id = (3 + j as u32, 0);
+        if n.page {
+            for key in ["Type", "Parent"] { v.push(e(Some(id), format!("page {} 0", id.0), key)); }
+        } else {
+            for key in ["Type", "Parent", "Kids", "Count"] { v.push(e(Some(id), format!("intermediate node {} 0", id.0), key)); }
+            inner.push((id, format!("intermediate node {} 0", id.0), n.kids.len()));
+        }
+    }
+    for (id, name, nk) in inner { for pos in 0..nk { v.push(Place::Kid { parent: id, owner: name.clone(), pos }); } }
+    v
+}
+
+fn place_desc(p: &Place) -> String {
+    match p {
+        Place::Entry { owner, key, .. } => format!("the value of /{} of the {}", key, owner),
+        Place::Kid { owner, pos, .. } => format!("element {} of the Kids array of the {}", pos, owner),
+    }
+}
+fn chain_desc(c: &Chain) -> String {
+    let end = match c.end {
+        ChainEnd::Back(0) => format!("the last refers back to the first (cycle of {} through the start)", c.hops),
+        ChainEnd::Back(i) => format!("the last refers back to object #{} of the chain (tail of {} then a loop of {} that does not contain the start)", i, i, c.hops - i),
+        ChainEnd::Orig => "the last refers to an object holding the original value (finite chain)".to_string(),
+        ChainEnd::Absent => "the last refers to an absent object".to_string(),
+        ChainEnd::Root => "the last refers to the root node".to_string(),
+    };
+    format!("{} reference-only objects {}.. each referring to the next, {}", c.hops, ALIAS_BASE, end)
+}
+
+fn chain_case(s: &str, place: &Place, chain: &Chain) -> Case {
+    let (mut doc, expect) = build_tree(s, 0, 0, None);
+    let a0 = r0(ALIAS_BASE);
+    // move the original value out and put the reference to the chain in its place
+    let orig: Option<Object> = match place {
+        Place::Entry { obj: None, key, .. } => { let o = dget(&doc.trailer, key.as_bytes()).cloned(); doc.trailer.set(key.as_bytes().to_vec(), a0); o }
+        Place::Entry { obj: Some(id), key, .. } => match doc.objects.get_mut(id) {
+            Some(Object::Dictionary(dict)) => { let o = dget(dict, key.as_bytes()).cloned(); dict.set(key.as_bytes().to_vec(), a0); o }
+            _ => None,
+        },
+        Place::Kid { parent, pos, .. } => match doc.objects.get_mut(parent) {
+            Some(Object::Dictionary(dict)) => match dict.get_mut(b"Kids") { Ok(Object::Array(a)) if *pos < a.len() => Some(std::mem::replace(&mut a[*pos], a0)), _ => None },
+            _ => None,
+        },
+    };
+    put(&mut doc, ORIG_ID, orig.unwrap_or(Object::Null));
+    for i in 0..chain.hops {
+        let target = if i + 1 < chain.hops { (ALIAS_BASE + i as u32 + 1, 0) } else {
+            match chain.end { ChainEnd::Back(b) => (ALIAS_BASE + b as u32, 0), ChainEnd::Orig => ORIG_ID, ChainEnd::Absent => ABSENT_ID, ChainEnd::Root => (2, 0) }
+        };
+        put(&mut doc, (ALIAS_BASE + i as u32, 0), rf(target));
+    }
+    // a finite chain in front of Kids, Count or Parent leaves a well-formed tree (values held behind references)
+    let transparent = matches!(place, Place::Entry { obj: Some(_), key, .. } if ["Kids", "Count", "Parent"].contains(key));
+    let exact = transparent && chain.end == ChainEnd::Orig && chain.hops <= EXACT_HOPS;
+    Case { desc: format!("reference chain: tree kids={}; {} is replaced by a reference to a chain of {} ({})", s, place_desc(place), chain_desc(chain), if exact { "well-formed: exact order demanded" } else { "weak obligations" }),
+           doc, expect: if exact { Some(expect) } else { None }, child: false }
+}
+
+
+// ---------------------------------------------------------------------------------------------------------
 // families
 // ---------------------------------------------------------------------------------------------------------
 pub struct Fam { name: &'static str, count: u64, make: Box<dyn Fn(u64) -> Case + Sync + Send> }
 
-struct Bounds { wf_n: usize, file_n: usize, deep: Vec<usize>, fan: Vec<usize>, graphs: Vec<GraphFam>, kinds_triples_all_roots: bool, counts_n: usize, big_trees: Vec<&'static str> }
+struct Bounds { wf_n: usize, file_n: usize, deep: Vec<usize>, fan: Vec<usize>, graphs: Vec<GraphFam>, kinds_triples_all_roots: bool, counts_n: usize, big_trees: Vec<&'static str>, chain_n: usize, chain_small: usize, chain_long: Vec<usize> }
 fn bounds(thorough: bool) -> Bounds {
     if thorough {
         Bounds { wf_n: 9, file_n: 5, deep: (0..=300).chain([1000]).collect(), fan: (0..=40).chain([64, 255, 256, 257, 1000]).collect(),
                  graphs: vec![GraphFam { slots: 2, root_len: 3, node_len: 3 }, GraphFam { slots: 3, root_len: 2, node_len: 2 }], kinds_triples_all_roots: true, counts_n: 5,
-                 big_trees: vec!["p", "(p)", "p(p)", "(p)p", "p(p)(p)", "p(p)(p)(p)", "pp((p)p)", "()p"] }
+                 big_trees: vec!["p", "(p)", "p(p)", "(p)p", "p(p)(p)", "p(p)(p)(p)", "pp((p)p)", "()p"],
+                 chain_n: 5, chain_small: 10, chain_long: vec![127, 128, 129, 200] }
     } else {
         Bounds { wf_n: 7, file_n: 4, deep: (0..=12).chain([31, 32, 33, 34, 64, 128]).chain(253..=259).chain([300]).collect(), fan: (0..=12).chain([31, 32, 33, 64, 256, 1000]).collect(),
                  graphs: vec![GraphFam { slots: 2, root_len: 3, node_len: 2 }], kinds_triples_all_roots: false, counts_n: 4,
-                 big_trees: vec!["(p)", "p(p)", "p(p)(p)(p)"] }
+                 big_trees: vec!["(p)", "p(p)", "p(p)(p)(p)"],
+                 chain_n: 4, chain_small: 6, chain_long: vec![127, 128, 129, 200] }
     }
 }
 
@@ -616,6 +732,13 @@ fn families(thorough: bool) -> Vec<Fam> {
         for v in 0..BIG_COUNTS.len() { for t in 0..=inter { bc.push((s, v, t)); } }
     }
     out.push(Fam { name: "huge-counts", count: bc.len() as u64, make: Box::new(move |i| { let (s, v, t) = bc[i as usize]; big_counts_case(s, v, t) }) });
+    // 9. reference chains of every shape at every place of a tree (last: a chain that is followed forever cuts the run short)
+    let ctrees: Arc<Vec<(String, Vec<Place>)>> = Arc::new(fo.iter().take(b.chain_n + 1).flatten().map(|s| (s.clone(), places(s))).collect());
+    let chs: Arc<Vec<Chain>> = Arc::new(chains(b.chain_small, &b.chain_long));
+    let mut cc: Vec<(u32, u16)> = vec![]; // (tree, place)
+    for (ti, (_, pl)) in ctrees.iter().enumerate() { for pi in 0..pl.len() { cc.push((ti as u32, pi as u16)); } }
+    let nch = chs.len() as u64;
+    out.push(Fam { name: "reference-chains", count: cc.len() as u64 * nch, make: Box::new(move |i| { let (ti, pi) = cc[(i / nch) as usize]; let (s, pl) = &ctrees[ti as usize]; chain_case(s, &pl[pi as usize], &chs[(i % nch) as usize]) }) });
     out
 }
 
@@ -630,10 +753,12 @@ fn bound_string(thorough: bool) -> String {
 (5) malformed reference graphs: catalog 1, root 2, k slots each a page or an intermediate node, every Kids list over {{catalog, root, every slot, an absent object}} (cycles, self loops, shared nodes, dangling kids): all graphs with [{}]; \
 (6) unusual nodes: root Kids = every {} of {} kid kinds (ill-typed/missing Type, Kids missing/ill-typed/dangling, non-dictionary objects, streams, alias objects and alias loops, inline entries, back references, wrong generation, 200-long alias chain) under {} root/catalog variants, plus every pair and single under all 13 root/catalog variants; \
 (7) wrong Count: all trees with <= {} nodes x 11 Count variants (absent, 0, -1, off by one, 1000, real, name, behind a reference, dangling reference, i64::MIN) on each single intermediate node and on all x 2 Kids modes; \
-(8) huge Count (2^31, 10^10, 5*10^17, i64::MAX, i64::MAX behind a reference) on {} small trees, each in a child process. \
-Malformed families (5)-(8) and beyond-limit depths: terminates (item cap {} and {} s watchdog), yields only page objects that occur in a Kids array under the root, numbers 1..n, no panic, no abort.",
+(8) huge Count (2^31, 10^10, 5*10^17, i64::MAX, i64::MAX behind a reference) on {} small trees, each in a child process; \
+(9) reference chains: all trees with <= {} nodes x every place where a value stands (trailer Root; catalog Type, Pages; root Type, Kids, Count; every intermediate node's Type, Parent, Kids, Count; every page's Type, Parent; every element of every Kids array) x every chain shape: the value is moved into a new indirect object O and the place refers to the first of L new indirect objects that hold nothing but a reference to the next, the last one referring to [the i-th of them, every 0 <= i < L (tail of i running into a loop of L - i; i = 0 is the cycle through the start) | O (finite chain) | an absent object | the root], every L in 1..={}, and L in {:?} with i in {{0, 1, L/2, L-1}} ({} shapes): exact order demanded when the chain is finite with L <= {} and stands for the value of Kids, Count or Parent (a well-formed tree whose values are held behind references), weak obligations otherwise. \
+Malformed families (5)-(9) and beyond-limit depths: terminates (item cap {} and {} s watchdog), yields only page objects that occur in a Kids array under the root, numbers 1..n, no panic, no abort.",
         b.wf_n, b.file_n, if thorough { "0..=300 and 1000".to_string() } else { format!("{:?}", b.deep) }, if thorough { "0..=40, 64, 255, 256, 257, 1000".to_string() } else { format!("{:?}", b.fan) },
-        g.join("; "), "triple", KINDS, if b.kinds_triples_all_roots { "all 13" } else { "the normal" }, b.counts_n, b.big_trees.len(), ITEM_CAP, HANG_MS / 1000)
+        g.join("; "), "triple", KINDS, if b.kinds_triples_all_roots { "all 13" } else { "the normal" }, b.counts_n, b.big_trees.len(),
+        b.chain_n, b.chain_small, b.chain_long, chains(b.chain_small, &b.chain_long).len(), EXACT_HOPS, ITEM_CAP, HANG_MS / 1000)
 }
 
 // ---------------------------------------------------------------------------------------------------------
